@@ -74,13 +74,25 @@ func (g *pwGen) fail(n ast.Node, format string, a ...interface{}) {
 	panic(fnErr{fmt.Sprintf("pw_fn: passwords.go:%d: %s", pos.Line, fmt.Sprintf(format, a...))})
 }
 
+// fresh gives the next Coq name of a Go variable: name'k. The apostrophe cannot
+// occur in a Go identifier, so no Go variable (first_1 next to first, or one
+// called acc, st, stop, tolower, contains ...) can capture a generated binder
+// or a library name.
 func (g *pwGen) fresh(name string) string {
 	k := g.count[name]
 	g.count[name] = k + 1
-	if k == 0 {
-		return name
+	return fmt.Sprintf("%s'%d", name, k)
+}
+
+// declare: a NEW Go variable (var, range key/value). Shadowing a name that is in
+// scope is outside the translated subset.
+func (g *pwGen) declare(n ast.Node, name string, t pwType) string {
+	if _, ok := g.vars[name]; ok || g.consts[name] {
+		g.fail(n, "`%s` is declared here but is already in scope: shadowing is outside the translated subset", name)
 	}
-	return fmt.Sprintf("%s_%d", name, k)
+	c := g.fresh(name)
+	g.vars[name] = pwVal{code: c, t: t}
+	return c
 }
 
 func init() {
@@ -99,22 +111,51 @@ func init() {
 	}
 }
 
+func (g *pwGen) pkgVarType(name string) string {
+	for _, f := range g.p.files {
+		for _, d := range f.Decls {
+			gd, ok := d.(*ast.GenDecl)
+			if !ok || gd.Tok != token.VAR {
+				continue
+			}
+			for _, s := range gd.Specs {
+				vs := s.(*ast.ValueSpec)
+				for _, n := range vs.Names {
+					if n.Name == name && vs.Type != nil {
+						return oneLine(g.p.text(vs.Type))
+					}
+				}
+			}
+		}
+	}
+	return "?"
+}
+
 func (g *pwGen) generate() string {
 	f := g.p.files["passwords.go"]
 	if f == nil {
 		panic(fnErr{"pw_fn: passwords.go not found"})
 	}
-	// the iota block
+	// the iota block: exactly one const declaration in passwords.go, a plain iota
+	// block of names Password*, the first one PasswordOK
 	var names []string
+	blocks := 0
 	for _, d := range f.Decls {
 		gd, ok := d.(*ast.GenDecl)
 		if !ok || gd.Tok != token.CONST {
 			continue
 		}
+		blocks++
+		if blocks > 1 {
+			g.fail(gd, "a second const declaration in passwords.go: exactly one (the Password* iota block) is expected")
+		}
 		for i, spec := range gd.Specs {
 			vs := spec.(*ast.ValueSpec)
-			if len(vs.Names) != 1 || (i == 0 && (len(vs.Values) != 1 || g.p.text(vs.Values[0]) != "iota")) || (i > 0 && len(vs.Values) != 0) {
+			if len(vs.Names) != 1 || vs.Type != nil || (i == 0 && (len(vs.Values) != 1 || g.p.text(vs.Values[0]) != "iota")) || (i > 0 && len(vs.Values) != 0) {
 				g.fail(vs, "the constant block is not a plain iota block")
+			}
+			if !strings.HasPrefix(vs.Names[0].Name, "Password") || (i == 0 && vs.Names[0].Name != "PasswordOK") {
+				g.fail(vs, "constant %s: the block is expected to consist of Password* names beginning with PasswordOK", vs.Names[0].Name)
 			}
 			names = append(names, vs.Names[0].Name)
 			g.consts[vs.Names[0].Name] = true
@@ -122,6 +163,57 @@ func (g *pwGen) generate() string {
 	}
 	if len(names) == 0 {
 		panic(fnErr{"pw_fn: no constant block in passwords.go"})
+	}
+	// `strings` is the standard package, imported under its own name
+	stdStrings := false
+	for _, im := range f.Imports {
+		ip, _ := strconv.Unquote(im.Path.Value)
+		name := ip
+		if i := strings.LastIndex(ip, "/"); i >= 0 {
+			name = ip[i+1:]
+		}
+		if im.Name != nil {
+			name = im.Name.Name
+		}
+		if name == "strings" && ip != "strings" {
+			g.fail(im, "the name strings is an import of %q, not of the standard package", ip)
+		}
+		if ip == "strings" && im.Name == nil {
+			stdStrings = true
+		}
+	}
+	if !stdStrings {
+		panic(fnErr{"pw_fn: passwords.go does not import \"strings\" under its own name"})
+	}
+	// the two word lists are package variables of type []string; no other
+	// top-level declaration is called strings, len, commonPasswords' shadow etc.
+	for _, v := range []string{"commonPasswords", "dictionary"} {
+		if t := g.pkgVarType(v); t != "[]string" {
+			panic(fnErr{fmt.Sprintf("pw_fn: package variable %s is declared %s, expected []string", v, t)})
+		}
+	}
+	for _, file := range g.p.files {
+		for _, d := range file.Decls {
+			switch x := d.(type) {
+			case *ast.FuncDecl:
+				if x.Recv == nil && (x.Name.Name == "len" || x.Name.Name == "strings") {
+					g.fail(x, "top-level function %s shadows a name the translation relies on", x.Name.Name)
+				}
+			case *ast.GenDecl:
+				for _, sp := range x.Specs {
+					if vs, ok := sp.(*ast.ValueSpec); ok {
+						for _, n := range vs.Names {
+							if n.Name == "len" || n.Name == "strings" {
+								g.fail(vs, "top-level declaration %s shadows a name the translation relies on", n.Name)
+							}
+						}
+					}
+					if ts, ok := sp.(*ast.TypeSpec); ok && (ts.Name.Name == "string" || ts.Name.Name == "rune") {
+						g.fail(ts, "top-level type %s shadows a predeclared type the translation relies on", ts.Name.Name)
+					}
+				}
+			}
+		}
 	}
 	fd := g.p.funcDecl("", "ReasonablePassword")
 	if fd == nil || fd.Body == nil {
@@ -134,11 +226,13 @@ func (g *pwGen) generate() string {
 	}
 	pw, nm := ps[0].Names[0].Name, ps[1].Names[0].Name
 	for _, v := range []string{"commonPasswords", "dictionary"} {
-		g.vars[v] = pwVal{code: g.fresh(v), t: pwStrs}
+		g.vars[v] = pwVal{code: v, t: pwStrs} // the Section variables below
 	}
-	g.count["tolower"], g.count["range_string"] = 1, 1
-	g.vars[pw] = pwVal{code: g.fresh(pw), t: pwStr}
-	g.vars[nm] = pwVal{code: g.fresh(nm), t: pwStrs}
+	if pw == nm {
+		g.fail(fd, "duplicate parameter name")
+	}
+	g.declare(fd, pw, pwStr)
+	g.declare(fd, nm, pwStrs)
 	body := g.block(fd.Body.List)
 
 	var b strings.Builder
@@ -231,8 +325,7 @@ func (g *pwGen) block(list []ast.Stmt) string {
 		if len(vs.Names) != 1 || len(vs.Values) != 0 || vs.Type == nil || g.p.text(vs.Type) != "rune" {
 			g.fail(x, "declaration `%s` is outside the translated subset (only `var x rune`)", stmtHead(g.p, x))
 		}
-		c := g.fresh(vs.Names[0].Name)
-		g.vars[vs.Names[0].Name] = pwVal{code: c, t: pwRune}
+		c := g.declare(x, vs.Names[0].Name, pwRune)
 		return fmt.Sprintf("    let %s := 0%%N in\n%s", c, g.block(rest))
 	case *ast.RangeStmt:
 		if x.Tok != token.DEFINE {
@@ -252,18 +345,12 @@ func (g *pwGen) block(list []ast.Stmt) string {
 			if len(x.Body.List) != 1 {
 				g.fail(x, "body of the loop over %s is not a single `if c { return K }`", stmtHead(g.p, x.X))
 			}
-			saved, had := g.vars[v.Name]
-			vc := g.fresh(v.Name)
-			g.vars[v.Name] = pwVal{code: vc, t: pwStr}
+			vc := g.declare(x, v.Name, pwStr)
 			c, k, ok := g.guard(x.Body.List[0])
 			if !ok {
 				g.fail(x.Body.List[0], "body of the loop is not a single `if c { return K }`")
 			}
-			if had {
-				g.vars[v.Name] = saved
-			} else {
-				delete(g.vars, v.Name)
-			}
+			delete(g.vars, v.Name) // out of scope after the loop
 			return fmt.Sprintf("    match fold_left (fun (acc : option pw_const) %s => match acc with Some r => Some r | None => if %s then Some %s else None end) %s None with\n    | Some r => r\n    | None =>\n%s\n    end",
 				vc, c, k, over.code, g.block(rest))
 		case pwStr:
@@ -294,8 +381,19 @@ func (g *pwGen) runeLoop(x *ast.RangeStmt, over pwVal) string {
 		}
 		return true
 	})
+	if k.Name == v.Name {
+		g.fail(x, "index and rune variable have the same name")
+	}
+	for _, n := range []string{k.Name, v.Name} {
+		if _, ok := g.vars[n]; ok || g.consts[n] {
+			g.fail(x, "range variable `%s` is already in scope: shadowing is outside the translated subset", n)
+		}
+	}
 	var ws []string
 	for _, n := range assignedNames(x.Body) {
+		if n == k.Name || n == v.Name {
+			g.fail(x, "the loop body assigns the range variable `%s` (Go would use the new value for the rest of the iteration): outside the translated subset", n)
+		}
 		if _, ok := g.vars[n]; ok {
 			ws = append(ws, n)
 		}
@@ -489,6 +587,11 @@ func (g *pwGen) expr(x ast.Expr) pwVal {
 		g.fail(x, "unary %s is outside the translated subset", x.Op)
 	case *ast.CallExpr:
 		fn := oneLine(g.p.text(x.Fun))
+		for _, n := range []string{"strings", "len"} {
+			if _, ok := g.vars[n]; ok {
+				g.fail(x, "a local variable is called %s: calls through that name are outside the translated subset", n)
+			}
+		}
 		var args []pwVal
 		for _, a := range x.Args {
 			args = append(args, g.expr(a))
